@@ -200,6 +200,13 @@ impl MultiPathManagerConfig {
 
     /// Validates the configuration.
     fn validate(&self) -> Result<(), MultiPathManagerConfigError> {
+        if self.max_cached_paths_per_pair == 0 {
+            // Otherwise, no fetched path could ever be kept or become active.
+            return Err(MultiPathManagerConfigError(
+                "max_cached_paths_per_pair must be at least 1",
+            ));
+        }
+
         if self.min_refetch_delay > self.refetch_interval {
             // Otherwise, refetch interval makes no sense.
             return Err(MultiPathManagerConfigError(
